@@ -111,7 +111,7 @@ CHECKS = {
              'advances by exactly the longest match and only if > 0, emitted lexeme = (token of the chosen rule, start, '
              'longest), every error ends lexing); start-state stack operations per operation variant, on every path; the regex '
              'handed to the engine is the user text grouped behind an anchor (\\A(?:..)); whether the id synchronisation answers "nothing '
-             'missing" is decided by an emptiness test, never by comparing counts (found the defect fixed in /repo 4eebccd).',
+             'missing" is decided by an emptiness test, never by comparing counts (found the defect fixed in /repo 4eebccd); a start state is looked up by comparing its id field, never by using the id as a position in the list.',
         note='What the regexes match and the contents of the id synchronisation sets are NOT decided. Trusted: regex crate; ' + TB,
         technique='symbolic cycle tables of the lexing loops extracted from MIR (strictness/orientation of comparisons, provenance of emitted values)',
         ref='§4 C09'),
@@ -125,7 +125,7 @@ CHECKS = {
              'grammar object that an accessor indexes with a PIdx/TIdx/RIdx are found from the accessors\' MIR; in the constructor '
              'every vector flowing into such a field must end with the length of its class leader (the vector whose len() '
              'becomes prods_len/tokens_len/rules_len): same initial length and pushes in the same straight-line regions, or '
-             'a snapshot of / one push per element of the completed leader. The string parse_string assembles chunk by chunk is only appended to inside its scan loop. No character class of a token regex mixes the two quote characters (a quoted token ends at its own kind of quote).',
+             'a snapshot of / one push per element of the completed leader. The string parse_string assembles chunk by chunk is only appended to inside its scan loop. No character class of a token regex mixes the two quote characters (a quoted token ends at its own kind of quote). On every pass of the production loop that consumed a token, the production\'s end becomes the end of the last token consumed.',
         note='The round-trip clauses of C10 (rules, symbols, precedences, %epp, actions are the ones written in the '
              'source, whatever the layout) are NOT decided beyond the span and table clauses above. Trusted: ' + TB,
         technique='lock-step growth analysis of parallel tables over MIR (accessor-derived index classes, per-region push counting, def-use)',
@@ -141,7 +141,7 @@ CHECKS = {
              '(5) A span built from the length of a piece line[A..] of a rule line starts at that piece (offset of the line + A), on every path. '
              '(6) Regex text is unescaped alike with and without a start-state prefix; the parser\'s list of escapes it passes through '
              'covers every escape form the regex engine interprets; one-character splits drop empty pieces; the inclusive/exclusive '
-             'kind of a start state is the constant of the declaration pattern that matched. No span bound in the .l parser comes from searching for the text of a piece with str::find (first occurrence, not the position of the piece).',
+             'kind of a start state is the constant of the declaration pattern that matched. No span bound in the .l parser comes from searching for the text of a piece with str::find (first occurrence, not the position of the piece). Each name of a comma-separated start-state list is trimmed before it is looked up.',
         note='Decides the span-offset clause and the "flags given are the ones in force" clause structurally. Does NOT decide '
              'that rule splitting and escape rewriting denote the right regular language. Trusted: ' + TB,
         technique='def-use provenance of parser inputs + name-agreement check over resolved field indices, callee names and constant strings in MIR',
